@@ -48,7 +48,20 @@ impl EnumCase {
         })
     }
     fn names(&self) -> (Vec<String>, Vec<String>) {
-        let nm = |i: usize| if self.hyphen && i % 2 == 1 { format!("eq-x{i}") } else { format!("eq{i}") };
+        // hostile-name mode: hyphenated names and Rust keywords (both force an identifier annotation)
+        const KW: [&str; 24] = [
+            "final", "static", "in", "abstract", "virtual", "type", "match", "loop", "self", "try", "fn", "let", "mut", "ref", "use", "mod", "pub", "impl", "for", "if",
+            "else", "while", "move", "box",
+        ];
+        let nm = |i: usize| {
+            if self.hyphen && i % 3 == 1 {
+                format!("eq-x{i}")
+            } else if self.hyphen && i % 3 == 2 && i < 3 * KW.len() {
+                KW[i / 3].to_string()
+            } else {
+                format!("eq{i}")
+            }
+        };
         let r = (0..self.root.len()).map(nm).collect();
         let a = (0..self.adds.as_ref().map_or(0, |a| a.len())).map(|i| nm(i + self.root.len())).collect();
         (r, a)
